@@ -917,9 +917,10 @@ package keyvalue
 //@   ensures "gate" [C04] implies(!VP(name), pathErr(err, "remove", name) && errIs(err, hackpadfs.ErrInvalid) && world() == old(world()) && implies(isMem(fs), memSame(fs)))
 //@   ensures "typed" [C05] implies(err != nil, pathErr(err, "remove", name))
 //@   ensures "mem-miss" implies(VP(name) && isMem(fs) && !old(kvHas(fs, name)), errIs(err, hackpadfs.ErrNotExist) && memSame(fs))
-//@   ensures "mem-nonempty" [C03 C01] implies(VP(name) && isMem(fs) && old(kvHas(fs, name)) && old(memIsDir(fs, name)) && old(memHasChildOf(fs, name)),
+//@   ensures "root" [C03] implies(name == "." && isMem(fs) && old(kvHas(fs, name)), errIs(err, hackpadfs.ErrPermission) && memSame(fs))
+//@   ensures "mem-nonempty" [C03 C01] implies(VP(name) && name != "." && isMem(fs) && old(kvHas(fs, name)) && old(memIsDir(fs, name)) && old(memHasChildOf(fs, name)),
 //@                     errIs(err, hackpadfs.ErrNotEmpty) && memSame(fs))
-//@   ensures "mem-removed" [C01] implies(VP(name) && isMem(fs) && old(kvHas(fs, name)) && !(old(memIsDir(fs, name)) && old(memHasChildOf(fs, name))),
+//@   ensures "mem-removed" [C01] implies(VP(name) && name != "." && isMem(fs) && old(kvHas(fs, name)) && !(old(memIsDir(fs, name)) && old(memHasChildOf(fs, name))),
 //@                     err == nil && !kvHas(fs, name) && memSameExcept(fs, name))
 //@   ensures "mem-world" implies(isMem(fs), world() == old(world()))
 //@   ensures "store-error" [C14] implies(VP(name) && isSerial(fs) && old(storeGetErr(fsStore(fs), name)) != nil, err != nil)
